@@ -911,8 +911,9 @@ class Inliner:
             if ast.dump(new) != before:
                 from .model import _SplitTupleAssign, _dissolve_records_in
                 _dissolve_records_in(ast.Module(body=[new], type_ignores=[]))
-                from .model import _splat_literal_tuples as _slt
+                from .model import _splat_literal_tuples as _slt, _FoldLiteralTests
                 _slt(ast.Module(body=[new], type_ignores=[]))
+                new = _FoldLiteralTests().visit(new)
                 new = _SplitTupleAssign().visit(new)
                 _propagate_copies(new)
                 _sink_temp_copies(new)
